@@ -321,3 +321,10 @@ PROPS["C13"]["quick"].append({"variant": "default", "cases": 6000, "params": {"w
 PROPS["C13"]["quick"].append({"variant": "default", "cases": 600, "params": {"sparse": 1, "case_timeout": 30}, "timeout": 900})
 PROPS["C13"]["thorough"].append({"variant": "default", "cases": 300000, "params": {"with_q": 1, "sparse": 1, "len_lo": 8, "len_hi": 40, "case_timeout": 60}, "timeout": 3400})
 PROPS["C13"]["thorough"].append({"variant": "default", "cases": 30000, "params": {"sparse": 1, "len_lo": 40, "len_hi": 200, "case_timeout": 60}, "timeout": 3400})
+
+# C08 over the other workload languages (LArith, LPay with payloads, LNest with Bind<Bind<..>> and slots around binders)
+PROPS["C08"]["quick"].append({"variant": "default", "cases": 12000, "params": {"mode": "hist", "lang": "all"}, "timeout": 600})
+PROPS["C08"]["quick"].append({"variant": "checks", "cases": 6000, "params": {"mode": "hist", "lang": "all"}, "timeout": 600})
+PROPS["C08"]["thorough"].append({"variant": "default", "cases": 400000, "params": {"mode": "hist", "lang": "all"}, "timeout": 3000})
+PROPS["C08"]["thorough"].append({"variant": "checks", "cases": 200000, "params": {"mode": "hist", "lang": "all"}, "timeout": 3000})
+PROPS["C08"]["floors"]["any"].update({"histories_arith": 1000, "histories_pay": 1000, "histories_nest": 1000})
